@@ -45,6 +45,7 @@ func verifyCmd(args []string) {
 		os.Exit(2)
 	}
 	fail := false
+	var tmpDirs []string
 	for _, key := range fs.Args() {
 		fn := prog.FindFunc(key)
 		if fn == nil {
@@ -62,7 +63,7 @@ func verifyCmd(args []string) {
 		dir := *dump
 		if dir == "" {
 			dir, _ = os.MkdirTemp("", "govc")
-			defer os.RemoveAll(dir)
+			tmpDirs = append(tmpDirs, dir)
 		}
 		vc.Solve(ex.Out, dir, *timeout, 16, false)
 		vc.PostProcess(ex.Out)
@@ -83,6 +84,9 @@ func verifyCmd(args []string) {
 				}
 			}
 		}
+	}
+	for _, d := range tmpDirs {
+		os.RemoveAll(d)
 	}
 	if fail {
 		os.Exit(1)
